@@ -1687,6 +1687,15 @@ func (z *Decimal) SetBitsExp(mant []Word, exp int64) *Decimal {
 	z.mant = dec(mant).norm()
 	z.neg = false
 	if len(z.mant) > 0 {
+		if z.prec == 0 {
+			// zero-value receiver: like the other setters, pick a precision
+			// that holds mant exactly instead of rounding to 0 digits.
+			p := uint64(len(z.mant)) * _DW
+			if p > MaxPrec {
+				p = MaxPrec
+			}
+			z.prec = umax32(uint32(p), DefaultDecimalPrec)
+		}
 		z.setExpAndRound(exp-dnorm(z.mant)-int64(len(mant)-len(z.mant))*_DW, 0)
 	} else {
 		z.acc = Exact
